@@ -351,6 +351,15 @@ class Body:
                 out.append((b, Callee(t["f"]), t))
         return out
 
+    def inlined_calls(self):
+        """[(block, Callee, original call term)] for the call sites that were spliced away in a flat body"""
+        out = []
+        for b in self.rpo():
+            t = self.term(b)
+            if t and t["k"] == "goto" and "inlined_call" in t:
+                out.append((b, Callee(t["inlined_call"]["f"]), t["inlined_call"]))
+        return out
+
     def find_calls(self, pred):
         return [(b, c, t) for (b, c, t) in self.calls() if pred(c)]
 
@@ -385,7 +394,7 @@ class Body:
             return rv["ops"]
         return []
 
-    def slice_back(self, start_locals, stop_call=None, max_steps=20000):
+    def slice_back(self, start_locals, stop_call=None, max_steps=20000, stop_local=None):
         """May-derive backward slice (flow-insensitive): returns (locals, calls, consts) from which the
         given locals may derive. `stop_call(callee)` -> True stops the traversal through that call's
         arguments (the call itself is still recorded)."""
@@ -401,6 +410,8 @@ class Body:
             if l in seen:
                 continue
             seen.add(l)
+            if stop_local is not None and l not in start_locals and stop_local(l):
+                continue
             for d in defs.get(l, []):
                 if d[0] == "assign":
                     rv = d[3]["rv"]
@@ -576,6 +587,14 @@ class Program:
     def item(self, kind, suffix):
         return [it for it in self.items if it["k"] == kind and it["path"].endswith(suffix)]
 
+    def flat(self, defp, max_depth=4, stop=None, key=None):
+        """flat view of a function (workspace callees spliced in); cached per (defp, depth, key)"""
+        ck = (defp, max_depth, key)
+        cache = self.__dict__.setdefault("_flat_cache", {})
+        if ck not in cache:
+            cache[ck] = flatten(self, defp, max_depth=max_depth, stop=stop)
+        return cache[ck]
+
     def callers_of(self, pred):
         """[(body, block, callee, term)] over all production bodies"""
         out = []
@@ -584,3 +603,211 @@ class Program:
                 if pred(c):
                     out.append((b, blk, c, t))
         return out
+
+
+# ---------------------------------------------------------------------------------------------------------------------------------
+# Flat bodies: workspace callees spliced into their call sites (bounded), so that intra-procedural rules (dominance, derivation)
+# give the same verdict whether a piece of code sits in a function of its own or inline. Async callees are spliced at the
+# `Future::poll` that drives them (their own awaits fall through), which models `.await` as a call.
+
+def _ren_place(p, lo):
+    if p is None:
+        return None
+    proj = []
+    for e in p[1]:
+        if e[0] == "index":
+            proj.append(["index", e[1] + lo])
+        else:
+            proj.append(e)
+    return [p[0] + lo, proj]
+
+
+def _ren_op(o, lo):
+    if o is None:
+        return None
+    if "copy" in o:
+        return {"copy": _ren_place(o["copy"], lo)}
+    if "move" in o:
+        return {"move": _ren_place(o["move"], lo)}
+    return o
+
+
+def _ren_rv(rv, lo):
+    k = rv["k"]
+    r = dict(rv)
+    if k in ("use", "repeat", "cast"):
+        r["op"] = _ren_op(rv["op"], lo)
+    elif k in ("ref", "rawptr", "discr"):
+        r["p"] = _ren_place(rv["p"], lo)
+    elif k == "bin":
+        r["a"] = _ren_op(rv["a"], lo)
+        r["b"] = _ren_op(rv["b"], lo)
+    elif k == "un":
+        r["a"] = _ren_op(rv["a"], lo)
+    elif k == "agg":
+        r["ops"] = [_ren_op(o, lo) for o in rv["ops"]]
+    return r
+
+
+def _ren_stmt(s, lo):
+    if s["k"] == "assign":
+        r = dict(s)
+        r["p"] = _ren_place(s["p"], lo)
+        r["rv"] = _ren_rv(s["rv"], lo)
+        return r
+    if s["k"] == "dead":
+        return {"k": "dead", "l": s["l"] + lo}
+    return dict(s)
+
+
+def _ren_term(t, lo, bo):
+    if t is None:
+        return None
+    r = dict(t)
+    k = t["k"]
+    for key in ("t", "imaginary", "drop"):
+        if key in r and isinstance(r[key], int):
+            r[key] = r[key] + bo
+    if k == "switch":
+        r["d"] = _ren_op(t["d"], lo)
+        r["arms"] = [[v, tg + bo] for (v, tg) in t["arms"]]
+        r["otherwise"] = t["otherwise"] + bo if isinstance(t["otherwise"], int) else t["otherwise"]
+    elif k == "call":
+        r["args"] = [_ren_op(a, lo) for a in t["args"]]
+        r["dest"] = _ren_place(t["dest"], lo)
+        if "indirect" in t["f"]:
+            f = dict(t["f"])
+            f["indirect"] = _ren_op(t["f"]["indirect"], lo)
+            r["f"] = f
+    elif k == "assert":
+        r["cond"] = _ren_op(t["cond"], lo)
+    elif k == "drop":
+        r["p"] = _ren_place(t["p"], lo)
+    elif k == "yield":
+        r["v"] = _ren_op(t["v"], lo)
+        r["resume_arg"] = _ren_place(t["resume_arg"], lo)
+    return r
+
+
+def _is_coroutine_body(b):
+    return b.kind == "Closure" and b.argc == 2 and len(b.locals) > 2 and "ResumeTy" in b.locals[2]["ty"].get("s", "")
+
+
+def flatten(prog, root_defp, max_depth=4, max_blocks=6000, stop=None):
+    """Return a Body for `root_defp` with resolved workspace callees spliced in (see module comment).
+    stop(callee_body) -> True keeps a call as a call. Blocks carry their source function in body.origin[block]."""
+    root = prog.bodies[root_defp]
+    locals_ = [dict(l) for l in root.locals]
+    blocks = [{"s": list(b["s"]), "t": b["t"], "cleanup": b.get("cleanup", False)} for b in root.blocks]
+    origin = [root.defp] * len(blocks)
+    origin_blk = list(range(len(blocks)))
+    callsite = [None] * len(blocks)
+    chain = {i: (root.defp,) for i in range(len(blocks))}
+    i = 0
+    inlined = []
+    while i < len(blocks):
+        t = blocks[i]["t"]
+        i += 1
+        if not t or t["k"] != "call" or len(blocks) > max_blocks:
+            continue
+        blk = i - 1
+        c = Callee(t["f"])
+        if c.indirect:
+            continue
+        cb = prog.bodies.get(c.target)
+        if cb is None or cb.defp in chain[blk] or len(chain[blk]) > max_depth or prog.is_test_body(cb):
+            continue
+        poll = c.trait is not None and last_seg(c.trait) == "Future" and c.method == "poll" and _is_coroutine_body(cb)
+        if not poll and cb.kind not in ("Fn", "AssocFn"):
+            continue
+        if stop is not None and stop(cb):
+            continue
+        lo, bo = len(locals_), len(blocks)
+        locals_.extend(dict(l) for l in cb.locals)
+        pre = []
+        if poll:
+            # bind the coroutine state `_1` to the aggregate(s) this poll drives
+            for src in _coroutine_sources(blocks, t["args"][0], cb.defp):
+                pre.append({"k": "assign", "p": [lo + 1, []], "rv": {"k": "use", "op": {"copy": [src, []]}}, "sp": t.get("sp")})
+        else:
+            for ai, a in enumerate(t["args"]):
+                if ai + 1 <= cb.argc:
+                    pre.append({"k": "assign", "p": [lo + 1 + ai, []], "rv": {"k": "use", "op": a}, "sp": t.get("sp")})
+        cont = t["t"]
+        dest = t["dest"]
+        for j, sb in enumerate(cb.blocks):
+            st = [_ren_stmt(s, lo) for s in sb["s"]]
+            tt = sb["t"]
+            if tt and tt["k"] == "return":
+                if poll:
+                    st.append({"k": "assign", "p": dest, "rv": {"k": "agg", "ak": "adt", "def": "core::task::poll::Poll", "variant": "Ready", "vidx": 0,
+                                                                 "ops": [{"move": [lo, []]}]}, "sp": tt.get("sp")})
+                else:
+                    st.append({"k": "assign", "p": dest, "rv": {"k": "use", "op": {"move": [lo, []]}}, "sp": tt.get("sp")})
+                nt = {"k": "goto", "t": cont, "sp": tt.get("sp")} if cont is not None else {"k": "unreachable"}
+            else:
+                nt = _ren_term(tt, lo, bo)
+            blocks.append({"s": st, "t": nt, "cleanup": sb.get("cleanup", False)})
+            origin.append(cb.defp)
+            origin_blk.append(j)
+            callsite.append(blk)
+            chain[bo + j] = chain[blk] + (cb.defp,)
+        blocks[blk] = {"s": blocks[blk]["s"] + pre, "t": {"k": "goto", "t": bo, "sp": t.get("sp"), "inlined_call": t}, "cleanup": blocks[blk].get("cleanup", False)}
+        inlined.append((blk, cb.defp))
+    j2 = dict(root.j)
+    j2["blocks"] = blocks
+    j2["locals"] = locals_
+    fb = Body(j2, root.unit)
+    fb.origin = origin
+    fb.origin_blk = origin_blk
+    fb.callsite = callsite
+    fb.inlined = inlined
+    fb.is_flat = True
+    return fb
+
+
+def _coroutine_sources(blocks, pin_arg, coroutine_def):
+    """locals holding the coroutine aggregate(s) (of definition `coroutine_def`) that may flow into the pinned argument of a poll"""
+    p = op_place(pin_arg)
+    if p is None:
+        return []
+    defs = defaultdict(list)
+    for b in blocks:
+        for s in b["s"]:
+            if s["k"] == "assign":
+                defs[s["p"][0]].append(("assign", s))
+        t = b["t"]
+        if t and t["k"] == "call":
+            defs[t["dest"][0]].append(("call", t))
+    out, seen, work = [], set(), [p[0]]
+    while work:
+        l = work.pop()
+        if l in seen:
+            continue
+        seen.add(l)
+        for kind, d in defs.get(l, []):
+            if kind == "assign":
+                rv = d["rv"]
+                if rv["k"] == "agg" and rv.get("ak") == "coroutine":
+                    if rv.get("def") == coroutine_def and l not in out:
+                        out.append(l)
+                    continue
+                ops = []
+                if rv["k"] in ("use", "cast", "repeat"):
+                    ops = [rv["op"]]
+                elif rv["k"] in ("ref", "rawptr"):
+                    ops = [{"copy": rv["p"]}]
+                elif rv["k"] == "agg":
+                    ops = rv["ops"]
+                for o in ops:
+                    pp = op_place(o)
+                    if pp is not None:
+                        work.append(pp[0])
+            else:
+                nm = Callee(d["f"]).name
+                if nm in ("Pin::new_unchecked", "Pin::new", "IntoFuture::into_future", "Pin::as_mut", "DerefMut::deref_mut", "Box::pin", "Box::new"):
+                    for a in d["args"]:
+                        pp = op_place(a)
+                        if pp is not None:
+                            work.append(pp[0])
+    return out
